@@ -611,3 +611,74 @@ Proof. split; [exact ay_perm|exact ay2_run_one]. Qed.
 
 Example c02_nonvacuous : nth_error [[97]; [98]] (N.to_nat 1) = Some [98] /\ nth_error [[97]; [98]] (N.to_nat 5) = None.
 Proof. split; reflexivity. Qed.
+
+(* ---------------- the purity hypotheses of version 2 derived from the checker (C06) ----------------
+   `file_ok2_ns` (Proofs/LocalFrag2.v) is `file_ok2` WITHOUT the purity demands on eager positions and on the values of
+   unscoped variables ((b) of the header): what stays is called functions, capture indices, no `var`/`set` of scoped
+   variables, restriction (c) on the scope expressions of DEFINITIONS (not a rule of the checker), the shorthand clause.
+   The dropped demands follow from `check_file q f = CkOk fl` (Props/C06.v, checked_eager_positions_local) when the
+   name-based declaration `purev` coincides with the checker's locality bits — `pv_file purev fl`, an executable check
+   (Model/Locality.v): purev is true of every global, `node`, loop and comprehension variable, false of every `var`,
+   and at every `let x = e` it equals the checker's verdict on e; i.e. the file uses every name consistently. *)
+From TSG Require Import Model.Checker Model.Locality Proofs.LocalFrag Proofs.LocalFrag2.
+
+Theorem eager_ok_file_in_fragment2 : forall okfn purev fl ms,
+  file_eok fl = true -> pv_file purev fl = true ->
+  file_ok2_ns okfn purev fl (f_stanzas fl) ms -> file_ok2 okfn purev fl (f_stanzas fl) ms.
+Proof. intros okfn purev fl ms Hf Hp. apply file_eok_file_ok2; auto. Qed.
+Theorem checked_file_in_fragment2 : forall q f fl okfn purev ms,
+  check_file q f = CkOk fl -> pv_file purev fl = true ->
+  file_ok2_ns okfn purev fl (f_stanzas fl) ms -> file_ok2 okfn purev fl (f_stanzas fl) ms.
+Proof. exact checked_file_ok2. Qed.
+
+Theorem strict_lazy_same_graph_scoped_checked_partial :
+  forall {rx : Type} t q f fl supplied (regexes : list rx) find call (okfn : ident -> Prop) (purev : ident -> bool) fuel ms g0 s p,
+  check_file q f = CkOk fl -> pv_file purev fl = true ->
+  (forall f, okfn f -> pure_fn call f) ->
+  file_ok2_ns okfn purev fl (f_stanzas fl) ms ->
+  run_strict t fl config0 supplied None regexes find call fuel ms g0 = Ok (s, p) ->
+  inh_antichain t fl (s_scoped s) ->
+  forall lfuel,
+    match run_lazy t fl config0 supplied None regexes find call lfuel (lmatches_of ms) g0 with
+    | Ok (ls, _) => l_graph ls = s_graph s
+    | OutOfFuel => True
+    | Err _ | Panic _ => False
+    end.
+Proof.
+  intros rx t q f fl supplied regexes find call okfn purev fuel ms g0 s p Hck Hpv Hpure Hok.
+  exact (strict_lazy_same_graph_scoped_partial t fl supplied regexes find call okfn purev fuel ms g0 s p Hpure
+           (checked_file_ok2 q f fl okfn purev ms Hck Hpv Hok)).
+Qed.
+Theorem strict_lazy_adequate_scoped_checked_partial :
+  forall {rx : Type} t q f fl supplied (regexes : list rx) find call (okfn : ident -> Prop) (purev : ident -> bool) fuel ms g0 s p,
+  check_file q f = CkOk fl -> pv_file purev fl = true ->
+  (forall f, okfn f -> pure_fn call f) ->
+  file_ok2_ns okfn purev fl (f_stanzas fl) ms ->
+  run_strict t fl config0 supplied None regexes find call fuel ms g0 = Ok (s, p) ->
+  inh_antichain t fl (s_scoped s) ->
+  exists lfuel0, forall lfuel, (lfuel0 <= lfuel)%nat ->
+    exists ls pl, run_lazy t fl config0 supplied None regexes find call lfuel (lmatches_of ms) g0 = Ok (ls, pl) /\ l_graph ls = s_graph s.
+Proof.
+  intros rx t q f fl supplied regexes find call okfn purev fuel ms g0 s p Hck Hpv Hpure Hok.
+  exact (strict_lazy_adequate_scoped_partial t fl supplied regexes find call okfn purev fuel ms g0 s p Hpure
+           (checked_file_ok2 q f fl okfn purev ms Hck Hpv Hok)).
+Qed.
+
+(* non-vacuity on the program of strict_lazy_same_graph_scoped_nonvacuous: its eager positions are eager_ok, its purity
+   declaration (q pure: `let q = @x  if some q`; p not: `let p = @x.n`) coincides with the bits, and the fragment
+   predicate is obtained from the weakened one *)
+Example strict_lazy_fragment2_derived :
+  file_eok ex2_file = true /\ pv_file ex2_purev ex2_file = true /\
+  file_ok2_ns ex2_okfn ex2_purev ex2_file (f_stanzas ex2_file) ex2_matches /\
+  file_ok2 ex2_okfn ex2_purev ex2_file (f_stanzas ex2_file) ex2_matches.
+Proof.
+  assert (H1 : file_eok ex2_file = true) by (vm_compute; reflexivity).
+  assert (H2 : pv_file ex2_purev ex2_file = true) by (vm_compute; reflexivity).
+  assert (H3 : file_ok2_ns ex2_okfn ex2_purev ex2_file (f_stanzas ex2_file) ex2_matches).
+  { cbn [file_ok2_ns ex2_file f_stanzas ex2_matches]. repeat split; repeat constructor; unfold match_ok2_ns; cbn;
+      repeat split; try reflexivity; try discriminate; try (intros; discriminate); constructor. }
+  split; [exact H1|]. split; [exact H2|]. split; [exact H3|]. exact (eager_ok_file_in_fragment2 _ _ _ _ H1 H2 H3).
+Qed.
+(* the purity declaration must agree with the bits: declaring p (bound to a scoped read) pure is refused *)
+Example strict_lazy_bad_purev_refused : pv_file (fun x => str_eqb x [112]) ex2_file = false.
+Proof. vm_compute. reflexivity. Qed.
